@@ -114,6 +114,12 @@ def route_grammars(R):
         return [R.Rule('start', e)]
     G.append(('deep-nesting-plain', deep_plain, {}))
 
+    def deep_literals_ignore():
+        # only literals beyond the split, but the grammar declares ignore patterns: the literals
+        # suspend to skip ignorable text
+        return deep_plain() + [R.Rule('Space', R.Regex(r'\s+'), ignored=True)]
+    G.append(('deep-nesting-literals-ignore', deep_literals_ignore, {}))
+
     def let():
         return [R.Rule('start', R.Let('x', R.Ref('X'), R.Call(R.Ref('T'), [R.Ref('x')]))),
                 R.Rule('T', R.Right(R.Ref('p'), R.Str('!')), params=['p']),
@@ -1124,7 +1130,7 @@ def class_members(R, bad, stats):
 
 
 ROUTE_PROPS = [
-    (('ignore', 'class-start'), {'C04', 'C11'}),
+    (('ignore', 'class-start', 'templates-ignore'), {'C04', 'C11'}),
     (('templates', 'shadow', 'let'), {'C05', 'C06', 'C11'}),
     (('classes',), {'C05', 'C08', 'C11', 'C14'}),
     (('sub-',), {'C13', 'C11'}),
